@@ -6,6 +6,10 @@
             | sl<code>[o|f|e] | snl<code>[o|f|e]          status with a body (code ≠ 200, 204, 304, ≥ 200), length announced / not
             | bl204 | bl304 | blz204 | blz304             bodiless, without / with `Content-Length: 0`
             | xn<k> | xl<k> | sx<code> | sy<code> | sz<code>_<k>
+            | sb<code>_<kind>_<framing>                   status with a body of the given kind (what error pages really hold):
+                kind ∈ {text, own, foreign, err, http, empty, huge, html, latin1, gz, gzn, bin, cut, u16}
+                framing ∈ {l (Content-Length, keep-alive), n (no length, the peer closes), c (chunked transfer
+                encoding, keep-alive), k (Content-Length and `Connection: close`)}
             | q<infos>_<final>_<delta>_<cuts>             a reply delivered in pieces (harness/peer.py):
                 infos ∈ {c,C,p,P,e,E}*  (100 / 102 / 103; upper case: pause after it)
                 final = ok | s<code>[o|f|e|h] | b204 | b304
@@ -37,6 +41,27 @@ def codeBodyQ? (cs : List Char) : Option (ErrCode × Body) :=
   match cs.reverse with
   | 'h' :: ds => (errCode? (String.ofList ds.reverse)).map (·, Body.httpReply)
   | _ => codeBody? cs
+
+def bodyKind? (s : String) : Option Body :=
+  match s with
+  | "text" => some .text | "own" => some .own | "foreign" => some .foreign | "err" => some .errObj | "http" => some .httpReply
+  | "empty" => some .empty | "huge" => some .huge | "html" => some .html | "latin1" => some .latin1
+  | "gz" => some .gzipDeclared | "gzn" => some .gzipBare | "bin" => some .binary | "cut" => some .cutChar | "u16" => some .utf16
+  | _ => none
+
+/-- `<code>_<kind>_<framing>` (the leading `sb` already removed). -/
+def statusBody? (s : String) : Option Beh :=
+  match s.splitOn "_" with
+  | [c, k, f] => do
+    let code ← errCode? c
+    let body ← bodyKind? k
+    match f with
+    | "l" => some (.status code true body)
+    | "n" => some (.status code false body)
+    | "c" => some (.statusChunked code body)
+    | "k" => some (.statusLenClose code body)
+    | _ => none
+  | _ => none
 
 def info? : Char → Option Info
   | 'c' => some (.continue100 false) | 'C' => some (.continue100 true)
@@ -88,6 +113,7 @@ def beh? (s : String) : Option Beh :=
   | "blz204" => some (.bodiless false true) | "blz304" => some (.bodiless true true)
   | _ =>
     match s.toList with
+    | 's' :: 'b' :: ds => statusBody? (String.ofList ds)
     | 's' :: 'n' :: 'l' :: ds => (codeBody? ds).map fun p => .status p.1 false p.2
     | 's' :: 'l' :: ds => (codeBody? ds).map fun p => .status p.1 true p.2
     | 's' :: 'x' :: ds => (errCode? (String.ofList ds)).map .statusLongNow
